@@ -150,7 +150,7 @@ static Case draw() {
     int res;
     if (c.kind == 0) res = ri(0, 15);
     else res = ri(0, 15);
-    gen::GCell g = gen::cellRes(res, {3, 5, 2, 2, 0, 0, 1});
+    gen::GCell g = gen::cellRes(res, {3, 5, 2, 2, 0, 0, 1, 1, 5});
     if (rpick({3, 1}) == 1) g.h = gen::pentagonAt(res, ri(0, 11));
     c.h = g.h;
     if (c.kind == 0) c.p = std::min(15, res + ri(0, MAXFULL));
